@@ -53,6 +53,14 @@ CLAIMED["C05"] = (
     "A",
 )
 
+CLAIMED["C08"] = (
+    "model-based property testing: generated didOpen/didChange histories (multi-byte, astral, CR/LF/CRLF texts; valid and overshooting positions; batches; full replacements) applied to the server's broker and to an independent LSP client text model, texts compared after every notification; exhaustive enumeration of all position pairs of all small texts; identifier-range round trip through the client model",
+    "Exploration with a completely enumerated sub-space (all texts up to 3 (4) symbols over {a, astral, LF, CR} x all ordered position pairs incl. overshoot x 3 replacements) plus 40k (600k) random histories and 20k (300k) round-trip documents; in process against the broker task and, for sessions, against the real binary through the guarded $/verif/text request.",
+    "Trusted: the client text model (written from LSP 3.17: UTF-16 columns, three line terminators, clamping), unit-tested; positions LSP leaves undefined are not generated.",
+    "DESIGN.md section 6 C08",
+    "A+B",
+)
+
 NOT_YET = "check not built yet (implementation in progress, see DESIGN.md section 8 build order)"
 NOT_APPLICABLE = {}
 
